@@ -203,7 +203,7 @@ def gen_c13(tier, rng):
             yield ('g2-' + label, 'g2 add %s %s' % (S.g2_jac(X, za), S.g2_jac(Y, zb)), None)
             yield ('g2-full-' + label, 'g2 addfull %s %s' % (S.g2_jac(X, za), S.g2_jac(Y, zb)), None)
             yield ('g2-sub-' + label, 'g2 sub %s %s' % (S.g2_jac(X, za), S.g2_jac(Y, zb)), None)
-            if X is not None and Y is not None:
+            if X is not None and Y is not None and label != 'add-opposite':   # P vs -P is the open finding D6: only through the `negate` form
                 yield ('g2-eq-' + label, 'g2eq %s %s' % (S.g2_jac(X, za), S.g2_jac(Y, zb)), None)
         yield ('g2-dbl', 'g2 dbl %s' % S.g2_jac(A, z1), None)
         yield ('g2-neg', 'g2 neg %s' % S.g2_jac(A, z1), None)
